@@ -660,32 +660,129 @@ def register(I):
         return ()
 
     # ----------------------------------------------------------------- iterators
-    def drive(I, it, st):
-        """evaluate an iterator with pending adaptors into a list of items (closures must be
-        single-outcome here; forks inside adaptors are merged by call1)"""
+    def drive_paths(I, it, st):
+        """evaluate an iterator with pending adaptors -> (st', items, [(st_p, Panic)...]).
+        Closure calls are threaded through the state; a conditional panic inside a closure splits
+        off a panic path and the remaining path continues."""
         items = list(it.items)
+        panics = []
+        cur = st
         for op in it.ops:
             kind = op[0]
-            if kind == "map":
+            if kind in ("map", "filter_map"):
                 out = []
                 for x in items:
-                    out.append(I.call_inplace(op[1], [x], st))
+                    outs = I.call_value(op[1], [x], cur)
+                    normal = [(s, v) for s, v in outs if not isinstance(v, Panic)]
+                    panics.extend((s, v) for s, v in outs if isinstance(v, Panic))
+                    if not normal:
+                        return None, None, panics
+                    if len(normal) > 1:
+                        raise Unsupported("iterator adaptor closure returned several unmerged outcomes")
+                    cur, r = normal[0]
+                    if kind == "map":
+                        out.append(r)
+                    else:
+                        if isinstance(r, Union):
+                            raise Unsupported("symbolic filter_map result")
+                        if r.variant == "Some":
+                            out.append(r.fields[0])
                 items = out
             elif kind == "enumerate":
                 items = [(i, x) for i, x in enumerate(items)]
-            elif kind == "filter_map":
-                out = []
-                for x in items:
-                    r = I.call_inplace(op[1], [x], st)
-                    if isinstance(r, Union):
-                        raise Unsupported("symbolic filter_map result")
-                    if r.variant == "Some":
-                        out.append(r.fields[0])
-                items = out
             else:
                 raise Unsupported("iterator adaptor " + kind)
+        return cur, items, panics
+
+    def drive(I, it, st):
+        """as drive_paths, for contexts that cannot continue after a conditional panic; the caller's
+        state is updated in place"""
+        cur, items, panics = drive_paths(I, it, st)
+        if panics and cur is None:
+            raise PanicExc(panics[0][1].msg, panics[0][1].site)
+        if panics:
+            raise Unsupported("conditional panic inside an iterator adaptor closure")
+        st.store, st.pc = cur.store, cur.pc
         return items
     I.drive_iter = drive
+
+    def consume(I, it, st, k):
+        """run consumer k(items, st') -> value | [(St, value)] on the driven iterator, keeping panic paths"""
+        cur, items, panics = drive_paths(I, it, st)
+        outs = list(panics)
+        if cur is not None:
+            r = k(items, cur)
+            if isinstance(r, list):
+                outs.extend(r)
+            else:
+                outs.extend(I.normalise(r, cur))
+        return outs
+
+    # further adaptors (evaluated eagerly where that is unobservable: no closure involved)
+    @reg("Iterator::chain")
+    def it_chain(I, st, args, info):
+        a, b = args[0], args[1]
+        if not isinstance(b, IterV):
+            b = into_iter(I, st, [b], info)
+        ia, ib = drive(I, a, st), drive(I, b, st)
+        return IterV(tuple(ia) + tuple(ib))
+
+    @reg("Iterator::rev")
+    def it_rev(I, st, args, info):
+        return IterV(tuple(reversed(drive(I, args[0], st))))
+
+    @reg("Iterator::cloned", "Iterator::copied")
+    def it_cloned(I, st, args, info):
+        return IterV([deref(x) for x in drive(I, args[0], st)])
+
+    @reg("Iterator::skip")
+    def it_skip(I, st, args, info):
+        if not isinstance(args[1], int):
+            raise Unsupported("symbolic skip count")
+        return IterV(drive(I, args[0], st)[args[1]:])
+
+    @reg("Iterator::take")
+    def it_take(I, st, args, info):
+        if not isinstance(args[1], int):
+            raise Unsupported("symbolic take count")
+        return IterV(drive(I, args[0], st)[:args[1]])
+
+    @reg("Iterator::zip")
+    def it_zip(I, st, args, info):
+        b = args[1] if isinstance(args[1], IterV) else into_iter(I, st, [args[1]], info)
+        return IterV(list(zip(drive(I, args[0], st), drive(I, b, st))))
+
+    @reg("Iterator::count")
+    def it_count(I, st, args, info):
+        return consume(I, args[0], st, lambda items, s2: len(items))
+
+    @reg("Iterator::last")
+    def it_last(I, st, args, info):
+        return consume(I, args[0], st, lambda items, s2: opt_some(items[-1]) if items else OPT_NONE)
+
+    @reg("Iterator::all")
+    def it_all(I, st, args, info):
+        it = deref_all(I, args[0], st)
+        items = drive(I, it, st)
+        acc = True
+        for x in items:
+            r = I.call1(args[1], [x], st)
+            if isinstance(r, Outcomes):
+                raise Unsupported("panic inside all()")
+            acc = b_and(acc, r)
+        return acc
+
+    @reg("Iterator::filter")
+    def it_filter(I, st, args, info):
+        items = drive(I, args[0], st)
+        out = []
+        for x in items:
+            r = I.call1(args[1], [ValRef(x)], st)
+            if r is True:
+                out.append(x)
+            elif r is not False:
+                raise Unsupported("symbolic filter predicate")
+        return IterV(out)
 
     @reg("Iterator::map")
     def it_map(I, st, args, info):
@@ -718,22 +815,23 @@ def register(I):
 
     @reg("Iterator::fold")
     def it_fold(I, st, args, info):
-        items = drive(I, args[0], st)
-        return seq_calls(I, args[2], items, st, args[1], lambda acc, x: [acc, x])
+        return consume(I, args[0], st, lambda items, s2: seq_calls(I, args[2], items, s2, args[1], lambda acc, x: [acc, x]))
 
     @reg("Iterator::for_each")
     def it_for_each(I, st, args, info):
-        items = drive(I, args[0], st)
-        outs = seq_calls(I, args[1], items, st, (), lambda acc, x: [x])
-        return [(s, v if isinstance(v, Panic) else ()) for s, v in outs]
+        def k(items, s2):
+            outs = seq_calls(I, args[1], items, s2, (), lambda acc, x: [x])
+            return [(s, v if isinstance(v, Panic) else ()) for s, v in outs]
+        return consume(I, args[0], st, k)
 
     @reg("Iterator::reduce")
     def it_reduce(I, st, args, info):
-        items = drive(I, args[0], st)
-        if not items:
-            return OPT_NONE
-        outs = seq_calls(I, args[1], items[1:], st, items[0], lambda acc, x: [acc, x])
-        return [(s, v if isinstance(v, Panic) else opt_some(v)) for s, v in outs]
+        def k(items, s2):
+            if not items:
+                return OPT_NONE
+            outs = seq_calls(I, args[1], items[1:], s2, items[0], lambda acc, x: [acc, x])
+            return [(s, v if isinstance(v, Panic) else opt_some(v)) for s, v in outs]
+        return consume(I, args[0], st, k)
 
     @reg("Iterator::any")
     def it_any(I, st, args, info):
@@ -760,7 +858,9 @@ def register(I):
 
     @reg("Iterator::collect", "FromIterator::from_iter")
     def it_collect(I, st, args, info):
-        items = drive(I, args[0], st)
+        return consume(I, args[0], st, lambda items, s2: collect_items(I, items, s2, info))
+
+    def collect_items(I, items, st, info):
         gens = info.path.generics(-1)
         target = _interp.short_type(gens[0]) if gens else _interp.short_type(info.dest_type() or "")
         if target.startswith("Vec<"):
